@@ -4,6 +4,7 @@ import os
 import common
 
 PROPS = "RotoV.Props.C20"
+PROPS_MEM = "RotoV.Props.C20Mem"
 
 
 def search(ctx):
@@ -12,20 +13,33 @@ def search(ctx):
 
 
 def run(ctx):
-    ctx.extract(["optables", "evalarms"])
-    ctx.prove(PROPS, extra_modules=["RotoV.Lemmas.ScalarBase", "RotoV.Lemmas.ScalarDiv", "RotoV.Lemmas.Scalar", "RotoV.Lemmas.ScalarEval", "RotoV.Model.RustStd", "RotoV.Model.Lir", "RotoV.Model.Clif"])
+    ctx.extract(["optables", "evalarms", "evalmem"])
+    # the scalar theorems do not depend on Generated/EvalMem: built without the driver, so that a
+    # change of the memory / control-flow code is attributed to the theorems it breaks
+    ctx.prove(PROPS, extra_modules=["RotoV.Lemmas.ScalarBase", "RotoV.Lemmas.ScalarDiv", "RotoV.Lemmas.Scalar", "RotoV.Lemmas.ScalarEval", "RotoV.Model.RustStd", "RotoV.Model.Lir", "RotoV.Model.Clif"],
+              extra_targets=())
+    # T2 memory_checked / T3 switch_agrees over Generated/EvalMem (Memory, Allocation, StackFrame,
+    # the Switch arms of the evaluator and of the code generator)
+    ctx.prove(PROPS_MEM, extra_modules=["RotoV.Model.EvalMem"])
     if ctx.build_harness("c20"):
         ctx.harness("c20", ["run", ctx.seed, ctx.tier], timeout=3000)
     ctx.trusted += [
         "Cranelift instruction semantics as written in RotoV/Model/Clif.lean (documented CLIF behaviour; not verified)",
         "IEEE-754 operations are uninterpreted (FloatOps); widening f32->f64 preserves comparisons (FloatLaws)",
-        "modelled, not verified: control flow, memory and host-call adapters of the evaluator are covered by the differential run only",
+        "cranelift_frontend::Switch as written in RotoV/Model/EvalMem.lean (set_entry rejects a repeated key, emit reaches the entry's block or the default; documented behaviour, not verified)",
+        "usize arithmetic of the evaluator's memory is modelled in Nat (no overflow of `+`; `-` panics/wraps below zero like Rust); what lies behind a Pointer::Global is uninterpreted; raw pointers handed to clone/drop/eq functions (Memory::get) are outside the model",
+        "modelled, not verified: Call/Return bookkeeping, the register file and host-call adapters of the evaluator are covered by the differential run only",
     ]
     return ctx.finish(
         level="proof",
-        rule="single-instruction programs: every (type, operator) x boundary^2 + random operands; compound programs: "
-             "random expression trees (arith, comparisons, &&, ||, !, if/else, let) x 20 argument tuples; "
-             "a class is distinct by (type, operator, outcome) or by program text with >=1 agreeing execution",
+        rule="mem: operation histories on the real Memory (boundary table per allocation size 0..24: every width 1/2/4/8/16/3/12 at every "
+             "offset up to 9 past the end, frame tables, random histories) judged by a shadow oracle and compared with the generated Lean "
+             "model, class = (operation, width, allocation size, in-bounds/out-of-bounds/within-padding/misaligned/dangling, outcome); "
+             "flow: matches over enums of 3..9 variants (payloads, `_`, shuffled arms) for every variant x 6 branch-table orders, calls with "
+             "permuted arguments, straight-line record programs with one access pushed past its stack slot, class = program text or "
+             "(site kind, slot size, width, outcome); single-instruction programs: every (type, operator) x boundary^2 + random operands; "
+             "compound programs: random expression trees x 20 argument tuples; a class is distinct by (type, operator, outcome) or by "
+             "program text with >=1 agreeing execution",
         search=search,
     )
 
@@ -39,4 +53,8 @@ def replay(ctx, data):
     inp = data["input"]
     case = inp.get("case", inp)
     rep = ctx.harness("c20", ["replay", json.dumps(case)])
-    return 1 if rep and rep.get("impl_violations") else 0
+    bad = bool(rep and rep.get("impl_violations"))
+    for v in (rep or {}).get("impl_violations", [])[:1]:
+        print("reproduced:", v.get("what"))
+    print("REPLAY", "reproduces the violation" if bad else "does not reproduce (no violation on this tree)")
+    return 1 if bad else 0
